@@ -32,10 +32,6 @@ def cases(tier, seed):
             cc = dict(c)
             cc["alg"] = {"kind": "advbatch", "p": p, "min": 1,
                          "budget": 2 if tier == "thorough" else 1}
-            if tier == "thorough" and not common.keep(len(out), 4):
-                # two illegal proposals only on a quarter of the cases
-                cc["alg"]["budget"] = 1
-                cc["budget_override"] = {"adv": 1}
             if world.feasible(cc):
                 out.append((sc + "/adversary", cc))
     if tier == "thorough":
